@@ -1015,6 +1015,23 @@ def check_C09(H):
         elif first.x.tobytes() != sol.xout.tobytes():
             out.append(V('C09', 'infeasible_x0_not_projected', 'x0', 'first evaluation is not the projection of the infeasible x0 (differs by %.3e)' % float(np.max(np.abs(first.x - sol.xout)))))
     stats = H.insitu_counts
+    # "tol is the Dykstra tolerance": the documented default (1e-10, which the model-level calls always use) or the user's
+    # dykstra.d_tol; likewise the sweep cap.  A call made with a looser tolerance / smaller cap than any documented one is not
+    # "the alternating-projection routine meeting its stopping rule" in the sense of the statement.
+    tol_doc = max(1e-10, float(user_param(H, 'dykstra.d_tol', 1e-10)))
+    cap_doc = min(100, int(user_param(H, 'dykstra.max_iters', 100)))
+    checked_calls = set()
+
+    def check_call_settings(d, site_):
+        if id(d) in checked_calls:
+            return
+        checked_calls.add(id(d))
+        if d.tol > tol_doc * (1 + 1e-9):
+            out.append(V('C09', 'tolerance_not_the_dykstra_tolerance', site_, 'projection run with tol=%g, documented tolerance is %g' % (d.tol, tol_doc)))
+        elif d.max_iter < cap_doc:
+            out.append(V('C09', 'sweep_cap_below_documented', site_, 'projection run with max_iter=%r, documented cap is %d' % (d.max_iter, cap_doc)))
+    if sol is not None:
+        check_call_settings(sol, 'x0')
     for c in H.calls:
         x = c.x
         if c.k == 1 or x.tobytes() == first.x.tobytes():
@@ -1029,6 +1046,7 @@ def check_C09(H):
                     break
                 continue
         stats['c09.points_checked'] = stats.get('c09.points_checked', 0) + 1
+        check_call_settings(d, c.site)
         if np.any(np.isnan(x)):
             out.append(V('C09', 'evaluated_point_nan', c.site, 'evaluation %d is NaN' % c.k))
             continue
